@@ -88,7 +88,26 @@ def main():
         if why:
             ctx.escalated = True
             ctx.notes.append('a proof obligation or generator of this property failed on this tree (%s): the search for a failing input was escalated to the thorough bounds' % '; '.join(why)[:400])
-    rc = mod.check(ctx)
+    try:
+        rc = mod.check(ctx)
+    except Exception:  # noqa
+        # the harness completes on the pinned tree; if it cannot complete here, a function of the tool that it calls as an oracle or
+        # runner behaves in a way it does not anticipate: the property is not shown to hold on this tree
+        import traceback
+        tb = traceback.format_exc()
+        path = common.write_replay(pid, 'broken-tie', {
+            'property': pid, 'seed': seed, 'tier': args.tier, 'theorems_no_longer_checked': [], 'correspondences_broken': [],
+            'note': 'the check could not be completed on this tree: the harness itself failed while driving the implementation', 'traceback': tb[-3000:]})
+        sys.stderr.write(tb)
+        sys.stdout.write('VIOLATION property=%s replay=%s no-failing-input-found\n' % (pid, path))
+        sys.stdout.flush()
+        t.cancel()
+        for child in descendants(os.getpid()):
+            try:
+                os.kill(child, signal.SIGKILL)
+            except OSError:
+                pass
+        os._exit(1)
     t.cancel()
     sys.exit(rc)
 
